@@ -97,10 +97,10 @@ STRIP_METHODS = {"astype", "copy", "ravel"}
 STRIP_FUNCS = {"array", "asarray", "ascontiguousarray", "dtype"}
 
 
-def canon(node, defs, keep=(), _depth=0, _seen=frozenset()):
+def canon(node, defs, keep=(), _depth=0, _seen=frozenset(), commutative_mult=True):
     if _depth > 200:
         raise AnalysisError("provenance expression too deep")
-    c = lambda n: canon(n, defs, keep, _depth + 1, _seen)
+    c = lambda n: canon(n, defs, keep, _depth + 1, _seen, commutative_mult)
     if isinstance(node, ast.Name):
         if node.id in keep:
             return node.id
@@ -108,7 +108,7 @@ def canon(node, defs, keep=(), _depth=0, _seen=frozenset()):
         if d is not None and id(d) in _seen:
             return node.id  # cyclic definition (loop-carried value): keep the name
         if d is not None:
-            c = lambda n: canon(n, defs, keep, _depth + 1, _seen | {id(d)})
+            c = lambda n: canon(n, defs, keep, _depth + 1, _seen | {id(d)}, commutative_mult)
             if d[0] == "expr":
                 return c(d[1])
             if d[0] == "unpack":
@@ -138,7 +138,7 @@ def canon(node, defs, keep=(), _depth=0, _seen=frozenset()):
         return "(" + ",".join(c(e) for e in node.elts) + ")"
     if isinstance(node, ast.List):
         return "[" + ",".join(c(e) for e in node.elts) + "]"
-    if isinstance(node, ast.BinOp) and isinstance(node.op, (ast.Add, ast.Mult)):
+    if isinstance(node, ast.BinOp) and (isinstance(node.op, ast.Add) or (isinstance(node.op, ast.Mult) and commutative_mult)):
         # flatten associative-commutative chains and sort the operands
         ops = []
 
@@ -157,7 +157,7 @@ def canon(node, defs, keep=(), _depth=0, _seen=frozenset()):
     if isinstance(node, ast.BinOp):
         a, b = c(node.left), c(node.right)
         op = type(node.op).__name__
-        if op in ("Add", "Mult"):
+        if op == "Add" or (op == "Mult" and commutative_mult):
             a, b = sorted([a, b])
         sym = {"Add": "+", "Sub": "-", "Mult": "*", "Div": "/", "MatMult": "@", "FloorDiv": "//", "Mod": "%", "Pow": "**"}.get(op, op)
         return "(%s%s%s)" % (a, sym, b)
